@@ -9,6 +9,7 @@ import (
 	"os"
 	"reflect"
 	"regexp"
+	"runtime"
 	"sort"
 	"strconv"
 	"strings"
@@ -660,28 +661,34 @@ func (d *Driver) FamDispatch(perType, G int) {
 // msgTypeConc: G goroutines race on the first classification of a type (the cache is emptied through the verif hook).
 func (d *Driver) msgTypeConc(sf, key string, mk func() interface{}, G int) {
 	for round := 0; round < 3; round++ {
-		csproto.VerifResetMsgTypeCache()
-		res := make([]csproto.MessageType, G)
-		var wg sync.WaitGroup
-		start := make(chan struct{})
-		for g := 0; g < G; g++ {
-			wg.Add(1)
-			go func(g int) {
-				defer wg.Done()
-				m := mk()
-				<-start
-				res[g] = csproto.MsgType(m)
-			}(g)
-		}
-		close(start)
-		wg.Wait()
 		e := &DEv{C: "disp", Op: "MsgTypeConc", Fl: sf, Key: key, St: "ok", Same: 1}
-		for _, r := range res {
-			if clsName(r) != sf {
-				e.Same = 0
+		// many first uses per recorded event: the window between a cache miss and the store is a few hundred nanoseconds
+		for sub := 0; sub < 60; sub++ {
+			csproto.VerifResetMsgTypeCache()
+			res := make([]csproto.MessageType, G)
+			var wg sync.WaitGroup
+			start := make(chan struct{})
+			for g := 0; g < G; g++ {
+				wg.Add(1)
+				go func(g int) {
+					defer wg.Done()
+					m := mk()
+					<-start
+					if g%2 == 1 && sub%3 == 0 {
+						runtime.Gosched()
+					}
+					res[g] = csproto.MsgType(m)
+				}(g)
 			}
+			close(start)
+			wg.Wait()
+			for _, r := range res {
+				if clsName(r) != sf {
+					e.Same = 0
+				}
+			}
+			e.Cls = clsName(res[0])
 		}
-		e.Cls = clsName(res[0])
 		d.emitD(e)
 	}
 }
